@@ -216,7 +216,7 @@ func c09Counter(c *Ctx) {
 					continue
 				}
 				n := 64*full + tail
-				w := &pathWalker{env: newEnv(), lengths: true, maxSteps: 60000}
+				w := &pathWalker{env: newEnv(), lengths: true, maxSteps: 60000, opaque: map[string]bool{"core": true}}
 				w.env.bind(outP, n)
 				w.env.bind(inP, n)
 				w.state = map[string]int64{}
